@@ -29,6 +29,7 @@ echo "demo with change: exit $WITH (want !=0); without: exit $WITHOUT (want 0); 
 git -C /repo apply $WT/patch.diff || { echo "patch does not apply to /repo"; exit 4; }
 cd /verif && timeout 3000 ./bin/symgo check -p $P -tier quick "$@" > /tmp/mut_check.txt 2>&1; CHK=$?
 git -C /repo checkout -- .
+git -C /verif checkout -- evidence/$P.json 2>/dev/null  # the evidence of a run against a seeded change is not evidence about /repo
 grep -E "^VIOLATION|^OK|^INCONCLUSIVE|^BROKEN|violated:" /tmp/mut_check.txt | cut -c1-300 | head -12
 echo "check exit: $CHK"
 mkdir -p $OUT
